@@ -12,7 +12,7 @@ ID = "C02"
 LEVEL = "exploration"
 RULE = ("(and ...)/(or ...) programs: arity 0-4 enumerated exhaustively over operand shape "
         "{var, effectful (L k v), statement-producing (do (setv t v) (L k t)), nested and/or} x "
-        "truthiness x operator; arity 5-8 sampled; five usage contexts. Non-trivial = arity >= 2 "
+        "truthiness x operator; arity 5-8 sampled; six usage contexts (incl. assignment to a variable that a later operand reads). Non-trivial = arity >= 2 "
         "with a statement-producing operand that is not first; distinct by program text.")
 FLOOR = {"quick": 500, "thorough": 500}
 BUDGET = {"quick": 40, "thorough": 420}
@@ -24,13 +24,13 @@ ASSUMPTIONS = ["CPython 3.12.1 truthiness/identity semantics",
                "closed-form oracle: index of first falsy (and) / truthy (or) operand else last"]
 
 MANIFEST = {
-    "text": "Every (and ...)/(or ...) program of arity 0-4 over four operand shapes x truthiness x operator is executed (exhaustive), arity 5-8 sampled, in five usage contexts; the returned object is compared by identity and the operand-evaluation trace exactly with a closed-form oracle. Exploration: held on the programs run, nothing beyond.",
+    "text": "Every (and ...)/(or ...) program of arity 0-4 over four operand shapes x truthiness x operator is executed (exhaustive), arity 5-8 sampled, in six usage contexts (incl. assignment to a variable that a later operand reads); the returned object is compared by identity and the operand-evaluation trace exactly with a closed-form oracle. Exploration: held on the programs run, nothing beyond.",
     "note": "Trusted: CPython 3.12.1 truthiness; the closed-form oracle (first falsy/truthy operand else last; left-to-right trace). Bounds: arity <= 8, nesting <= 3.",
     "technique": "runtime monitoring: trace logger on every operand + identity of returned object vs closed-form oracle, exhaustive small arities",
 }
 
 SHAPES = ["var", "eff", "stmt", "nest"]
-CONTEXTS = ["used", "discarded", "iftest", "callarg", "infn"]
+CONTEXTS = ["used", "discarded", "iftest", "callarg", "infn", "alias"]
 FALSY = ["[]", "0", '""', "None", "False"]
 
 
@@ -87,7 +87,15 @@ def leaves(node):
         yield node
 
 
-def wrap(form, ctx):
+def wrap(form, ctx, node=None):
+    if ctx == "alias":
+        # assign the form to a variable that one of its own (later) operands reads:
+        # the target must keep its old value until the whole form has been evaluated
+        lv = [l for l in leaves(node)] if node else []
+        if not lv:
+            return f"(setv RESULT {form})"
+        tgt = f"v{lv[-1]['i']}"
+        return f"(setv {tgt} {form})\n(setv RESULT {tgt})"
     if ctx == "used":
         return f"(setv RESULT {form})"
     if ctx == "discarded":
@@ -111,9 +119,9 @@ def cases(seed, tier, shard, nshards):
                 if idx % nshards != shard:
                     continue
                 node = build(op, specs, itertools.count())
-                ctxs = CONTEXTS if tier == "thorough" or n <= 2 else [CONTEXTS[idx % 5], CONTEXTS[(idx // 5 + 1) % 5]]
+                ctxs = CONTEXTS if tier == "thorough" or n <= 2 else [CONTEXTS[idx % 6], CONTEXTS[(idx // 6 + 1) % 6], "alias"]
                 for ctx in dict.fromkeys(ctxs):
-                    yield {"node": node, "ctx": ctx, "text": wrap(render(node), ctx), "cls": f"exh{n}"}
+                    yield {"node": node, "ctx": ctx, "text": wrap(render(node), ctx, node), "cls": f"exh{n}"}
     # sampled part
     i = 0
     while True:
@@ -134,7 +142,7 @@ def cases(seed, tier, shard, nshards):
         specs[sp] = ("stmt", specs[sp][1])
         node = build(op, specs, itertools.count(), rng)
         ctx = rng.choice(CONTEXTS)
-        yield {"node": node, "ctx": ctx, "text": wrap(render(node), ctx), "cls": f"rand{n}"}
+        yield {"node": node, "ctx": ctx, "text": wrap(render(node), ctx, node), "cls": f"rand{n}"}
 
 
 def value_for(leaf, values):
